@@ -152,9 +152,10 @@ deriving Repr
 
 def U32 : Nat := 4294967296
 
-/-- dense word of one column: `dense.0[j] |= 1 << i` for every `i < 64` of the column -/
+/-- dense word of one column: `dense.0[j] ^= 1 << i` for every `i < 64` of the column
+(repeated indices cancel in pairs, as in every other product of the file) -/
 def denseWord (col : List Nat) : Nat :=
-  col.foldl (fun d i => if i < 64 then d ||| (1 <<< i) else d) 0
+  col.foldl (fun d i => if i < 64 then d ^^^ (1 <<< i) else d) 0
 
 /-- `coords.push((i as u32, j as u32))` for every `i ≥ 64` of column `j` -/
 def coordsOf (j : Nat) (col : List Nat) : List (Nat × Nat) :=
